@@ -35,7 +35,7 @@ PROPS = {
         'assumptions': ['atomic.AddUint32 linearises concurrent increments (Go memory model, not formalised)'],
     },
     'C08': {
-        'lean_modules': ['C08a'],
+        'lean_modules': ['C08a', 'C08b'],
         'engines': [('subs', 400, 4000), ('retry', 300, 2500)],
         'rule': 'Subscribe/Unsubscribe call histories over 3 filters x 3 QoS with repeated filters, changed QoS, multi-filter calls, '
                 'duplicates inside one call and absent filters (all histories of <= 4 calls over a 10-call alphabet in the thorough tier)',
@@ -117,5 +117,46 @@ PROPS = {
                         'the transport either delivers a whole packet or fails the write; the broker conforms to MQTT 3.1.1 (Spec in Model/Retry: Broker)',
                         'the application does not mutate a message after Publish and leaves Message.ID zero'],
         'thorough_seeds': 2,
+    },
+    'C13': {
+        'engines': [('ka', 150, 1500), ('kareconn', 6, 60)],
+        'rule': 'the real KeepAlive loop over a real BaseClient whose broker answers, ignores (timeout), kills or refuses each PINGREQ as '
+                'scripted, or whose parent context is cancelled during a ping; 0-6 answered pings before the deciding one; plus '
+                'reconnecting-client scenarios (peer answers N pings, goes silent, comes back) checked by the Go oracle only',
+        'assumptions': ['real time: interval 2 ms / timeout 25 ms in the loop stream; only lower bounds are asserted on elapsed time',
+                        'the <-ticker.C wait is not cancel-aware: a cancelled keep-alive stops at its next tick (the statement only asks for the right error)'],
+        'partial': 'promptness of detection is measured by the correspondence run, not proved (Go timers are not modelled)',
+    },
+    'C09': {
+        'lean_modules': ['C09a', 'C09b'],
+        'engines': [('retry', 300, 2500), ('kareconn', 4, 40)],
+        'rule': 'retry-stack scripts (dial errors, refused / absent CONNACK, peer close, faults that end connections, Disconnect) '
+                'checked for: every redial waits at least min(base*2^j, max) after the j-th consecutive failure (lower bound only), no dial '
+                'while another transport is open, exactly one CONNECT first on every connection, no dial after Disconnect, Disconnect returns',
+        'assumptions': ['elapsed time is only bounded from below (time.After never fires early); machine load cannot cause an alarm',
+                        'the select between the timer and the disconnect signal may pick the timer: one Connect already in progress may finish after Disconnect is called (D20); the oracle asserts the safe reading only'],
+        'partial': 'the waits are proved as exponents/arithmetic on the model; real elapsed time is validated by correspondence only',
+        'thorough_seeds': 2,
+    },
+    'C07': {
+        'engines': [('bc', 400, 4000)],
+        'rule': 'scripts over the base client LTS: API calls (Connect, Publish QoS 1/2, Subscribe, Unsubscribe, Ping, Disconnect) started at scripted points, acknowledgements in a scripted order (own, foreign, wrong-kind, unsolicited, SUBACK with right / wrong count), cancellation of any call, peer close, local Close, malformed packet, write refusal; the thorough tier enumerates every request kind x every step of its exchange x every cause, alone and with 1-4 other blocked calls; non-trivial = at least one call was made',
+        'assumptions': ['registration of a waiter and the write of its request are one atomic step (no acknowledgement can precede the request)',
+                        'goroutine scheduling and channel semantics of Go are not formalised: each blocking select is modelled by its three exits',
+                        'promptness ("returns promptly") is measured by the correspondence run (5 s budget per predicted return), not proved'],
+    },
+    'C11': {
+        'engines': [('bc', 400, 4000)],
+        'rule': 'scripts over the base client LTS: API calls (Connect, Publish QoS 1/2, Subscribe, Unsubscribe, Ping, Disconnect) started at scripted points, acknowledgements in a scripted order (own, foreign, wrong-kind, unsolicited, SUBACK with right / wrong count), cancellation of any call, peer close, local Close, malformed packet, write refusal; the thorough tier enumerates every request kind x every step of its exchange x every cause, alone and with 1-4 other blocked calls; non-trivial = at least one call was made',
+        'assumptions': ['registration of a waiter and the write of its request are one atomic step (no acknowledgement can precede the request)',
+                        'goroutine scheduling and channel semantics of Go are not formalised: each blocking select is modelled by its three exits',
+                        'promptness ("returns promptly") is measured by the correspondence run (5 s budget per predicted return), not proved'],
+    },
+    'C16': {
+        'engines': [('bc', 400, 4000), ('kareconn', 6, 60)],
+        'rule': 'scripts over the base client LTS: API calls (Connect, Publish QoS 1/2, Subscribe, Unsubscribe, Ping, Disconnect) started at scripted points, acknowledgements in a scripted order (own, foreign, wrong-kind, unsolicited, SUBACK with right / wrong count), cancellation of any call, peer close, local Close, malformed packet, write refusal; the thorough tier enumerates every request kind x every step of its exchange x every cause, alone and with 1-4 other blocked calls; non-trivial = at least one call was made',
+        'assumptions': ['registration of a waiter and the write of its request are one atomic step (no acknowledgement can precede the request)',
+                        'goroutine scheduling and channel semantics of Go are not formalised: each blocking select is modelled by its three exits',
+                        'promptness ("returns promptly") is measured by the correspondence run (5 s budget per predicted return), not proved'],
     },
 }
